@@ -53,6 +53,8 @@ def make_cfg(platform, acl_names, group_names, intfs, indent, noise_seed):
         for k, l in enumerate(lines):
             if noise_seed % 4 == 3 and k in (0, 1):
                 out.append("!" if k else "! temporary rule, ticket 42")
+            if noise_seed % 4 == 2 and k == 1:
+                out.append(pad + "! an indented comment line inside the section")
             out.append(pad + l)
         return out
     for n in acl_names:
